@@ -1453,42 +1453,46 @@ class BADS:
             ]
             gp = self.iteration_history.get("gp")[min_q_beta_idx]
 
-            # Re-evalate estimated function value and SD at final point
-            if self.options["noise_final_samples"] > 0:
-                # Estimate function value and standard deviation at final point.
-                # Note that by default we do *not* use YVAL because it is biased
-                # (since it was an incumbent at some iteration, it is more likely to be a
-                # random fluctuation lower than the mean)
-                yval_vec = np.empty(self.options["noise_final_samples"])
-                ysd_vec = np.empty(self.options["noise_final_samples"])
-                for i_sample in range(self.options["noise_final_samples"]):
-                    y, y_sd, _ = self.function_logger(
-                        self.u, record_duplicate_data=False
-                    )
-                    yval_vec[i_sample] = y
-                    ysd_vec[i_sample] = y_sd
-
-                if yval_vec.size == 1:
-                    yval_vec = np.vstack((yval_vec, self.yval))
-                    if self.options["specify_target_noise"]:
-                        ysd_vec = np.vstack(
-                            (
-                                ysd_vec,
-                                self.function_logger.S[
-                                    self.function_logger.Xn
-                                ],
-                            )
-                        )
-
-                self.optim_state["yval_vec"] = np.copy(yval_vec)
-                self.optim_state["ysd_vec"] = np.copy(ysd_vec)
-
-                self.fval = np.mean(yval_vec).item()
-                self.fsd = (np.std(yval_vec) / np.sqrt(yval_vec.size)).item()
-                self.iteration_history.record(
-                    "fval", self.fval, poll_iteration
+        # Re-evalate estimated function value and SD at final point
+        # (also when the run ended during the first iteration)
+        if (
+            self.optim_state["uncertainty_handling_level"] > 0
+            and self.options["noise_final_samples"] > 0
+        ):
+            # Estimate function value and standard deviation at final point.
+            # Note that by default we do *not* use YVAL because it is biased
+            # (since it was an incumbent at some iteration, it is more likely to be a
+            # random fluctuation lower than the mean)
+            yval_vec = np.empty(self.options["noise_final_samples"])
+            ysd_vec = np.empty(self.options["noise_final_samples"])
+            for i_sample in range(self.options["noise_final_samples"]):
+                y, y_sd, _ = self.function_logger(
+                    self.u, record_duplicate_data=False
                 )
-                self.iteration_history.record("fsd", self.fsd, poll_iteration)
+                yval_vec[i_sample] = y
+                ysd_vec[i_sample] = y_sd
+
+            if yval_vec.size == 1:
+                yval_vec = np.vstack((yval_vec, self.yval))
+                if self.options["specify_target_noise"]:
+                    ysd_vec = np.vstack(
+                        (
+                            ysd_vec,
+                            self.function_logger.S[
+                                self.function_logger.Xn
+                            ],
+                        )
+                    )
+
+            self.optim_state["yval_vec"] = np.copy(yval_vec)
+            self.optim_state["ysd_vec"] = np.copy(ysd_vec)
+
+            self.fval = np.mean(yval_vec).item()
+            self.fsd = (np.std(yval_vec) / np.sqrt(yval_vec.size)).item()
+            self.iteration_history.record(
+                "fval", self.fval, poll_iteration
+            )
+            self.iteration_history.record("fsd", self.fsd, poll_iteration)
 
         # Convert back to original space
         self.x = self.var_transf.inverse_transf(self.u)
